@@ -3,5 +3,6 @@ import UflVerif.AuditCmd
 import UflVerif.Props.C19
 import UflVerif.Props.C19Dispatch
 import UflVerif.Props.C20
+import UflVerif.Props.C24
 import UflVerif.Props.C25
 import UflVerif.Props.C26
